@@ -13,7 +13,8 @@ var intrinsicNames = map[string]bool{
 	"vCover": true, "vAssertBytesEqual": true, "vTag": true, "vRegister": true, "vEvent": true,
 	"vFloat64": true, "vIsSymbolic": true, "vGhostCount": true, "vGhostInt": true, "vFreshBytes": true,
 	"vBytesEq": true, "vNative": true, "vHashOf": true, "vSealed": true, "vAssertStrEqual": true,
-	"vASCII": true, "vObjID": true, "vLog": true, "vFromRNG": true, "vAllocLimit": true,
+	"vASCII": true, "vObjID": true, "vLog": true, "vFromRNG": true, "vAllocLimit": true, "vPeerAd": true, "vNow": true, "vSymbolic": true,
+	"vIteInt": true, "vIteStr": true, "vAdSetStrIf": true, "vPick": true, "vIn": true, "vImplies": true, "vOr": true, "vAnd": true,
 }
 
 func isHarnessIntrinsic(n string) bool { return intrinsicNames[n] }
@@ -168,6 +169,70 @@ func (in *Interp) intrinsic(fn *ssa.Function, args []Value) Value {
 			cs = append(cs, tb.Or(tb.SLe(ln, ii), tb.ULt(in.memRead(m, tb.Add(off, ii)), tb.Const(8, 0x80))))
 		}
 		return tb.And(cs...)
+	case "vIteInt":
+		return tb.Ite(args[0].(*Term), args[1].(*Term), args[2].(*Term))
+	case "vIteStr":
+		c := args[0].(*Term)
+		a, b := args[1].(StrV), args[2].(StrV)
+		if c.IsTrue() {
+			return a
+		}
+		if c.IsFalse() {
+			return b
+		}
+		na, nb := in.needBound(a, "vIteStr"), in.needBound(b, "vIteStr")
+		mx := na
+		if nb > mx {
+			mx = nb
+		}
+		m := zeroMem
+		for j := 0; j < mx; j++ {
+			m = in.memStore(m, tb.Int(int64(j)), tb.Ite(c, in.strByte(a, j), in.strByte(b, j)))
+		}
+		return StrV{Mem: m, Off: tb.Int(0), Len: tb.Ite(c, a.Len, b.Len), Max: mx}
+	case "vImplies":
+		return tb.Implies(args[0].(*Term), args[1].(*Term))
+	case "vOr":
+		return tb.Or(args[0].(*Term), args[1].(*Term))
+	case "vAnd":
+		return tb.And(args[0].(*Term), args[1].(*Term))
+	case "vIn":
+		s := args[0].(StrV)
+		r := tb.False
+		for _, o := range in.strSliceElems(args[1]) {
+			r = tb.Or(r, in.strEq(s, o))
+		}
+		return r
+	case "vPick":
+		name := in.argStr(args[0])
+		opts := in.strSliceElems(args[1])
+		k := tb.Sym(name, BV(64))
+		in.declInput(&Input{Name: name, Kind: "int", T: k, W: 64, Signed: true})
+		in.addConstraint(tb.And(tb.SLe(tb.Int(0), k), tb.SLt(k, tb.Int(int64(len(opts))))))
+		mx := 0
+		for _, o := range opts {
+			if !o.Len.IsConst() {
+				panic("vPick: options must have concrete lengths")
+			}
+			if int(o.Len.V) > mx {
+				mx = int(o.Len.V)
+			}
+		}
+		ln := tb.Int(0)
+		for i := len(opts) - 1; i >= 0; i-- {
+			ln = tb.Ite(tb.Eq(k, tb.Int(int64(i))), opts[i].Len, ln)
+		}
+		m := zeroMem
+		for j := 0; j < mx; j++ {
+			b := tb.Const(8, 0)
+			for i := len(opts) - 1; i >= 0; i-- {
+				if j < int(opts[i].Len.V) {
+					b = tb.Ite(tb.Eq(k, tb.Int(int64(i))), in.strByte(opts[i], j), b)
+				}
+			}
+			m = in.memStore(m, tb.Int(int64(j)), b)
+		}
+		return StrV{Mem: m, Off: tb.Int(0), Len: ln, Max: mx}
 	case "vAllocLimit":
 		limit := in.toInt(args[0].(*Term))
 		in.allocHook = func(n *Term) {
@@ -205,6 +270,9 @@ func (in *Interp) intrinsic(fn *ssa.Function, args []Value) Value {
 			}
 		}
 		return tb.Int(0)
+	}
+	if f, ok := in.intrinsicsExtra[fn.Name()]; ok {
+		return f(in, args)
 	}
 	if f, ok := ghostIntrinsics[fn.Name()]; ok {
 		return f(in, args)
@@ -257,7 +325,7 @@ func (in *Interp) doAssert(c *Term, label string) {
 		return []int{1}
 	})
 	key := "assert|" + label + "|" + in.prefixKey()
-	if in.violSeen[key] {
+	if in.violSeen[key] || in.replayedPinned() {
 		// replayed decision: only restore the path condition
 		if ch == 2 {
 			in.endPath("assert-failed")
